@@ -13,6 +13,7 @@ static inline const iora_reserr *iora_res_error(const iora_res *r) { IORA_ASSERT
 
 /* ---- per-attempt ghosts ---- */
 bool G_presend_entered;     /* the pre-send region was entered (acquireConnection called) */
+bool G_presend_framing;     /* acquireConnection failed with an HttpFramingError */
 bool G_acquired;            /* acquireConnection returned a session for this attempt */
 SessionId G_sid;            /* ... this one */
 int G_send_calls;           /* sendSync calls (whole run of performRequest; the glue snapshots it per attempt) */
